@@ -1,7 +1,10 @@
 /- Driver handler owned by property C04: `c04 <args…>` requests.
 
    `c04 get <hex>` — `<hex>` is the hex encoding of the s-expression
-     (get (env (rt SCOPE #ident ID)…) (fns (fn #key (T…) T) | (helper #key) …) #name (rust (R…) R))
+     (get (env (rt SCOPE #ident ID)…) (fns (fn #key (T…) T) | (fm #key (T…) S S) | (helper #key) …) #name (rust (R…) R))
+   where `fm` is a filtermap given by what its body does with the accept and
+   the reject side, S ::= unused | T (the payload type; `unit` for a bare
+   `accept`), whose signature the model derives (`filtermapSignature`),
    with script types
      T ::= unit | never | intvar | floatvar | (var N) | (record N) | (n SCOPE #ident T…)
      SCOPE ::= g | N
@@ -98,10 +101,19 @@ def envOf (xs : List Sexp) : Option TypeInfo := do
     | some e => .runtime n (.opaque e.2)
     | none => .enum⟩
 
+/-- what a filtermap body does with a side: `unused`, or the payload type -/
+def sideOf : Sexp → Option (Option RotoTy)
+  | .atom "unused" => some none
+  | t => (rotoTy t).map some
+
 def fnsOf (xs : List Sexp) : Option Functions :=
   xs.mapM (fun
     | .list [.atom "fn", .atom k, .list ps, ret] => do
       pure (← identOf k, some ⟨← ps.mapM rotoTy, ← rotoTy ret⟩)
+    | .list [.atom "fm", .atom k, .list ps, a, r] => do
+      -- the signature `filter_map_type` + `force_filtermap_types` leave behind
+      let sig ← filtermapSignature (ident "Verdict") (← ps.mapM rotoTy) (← sideOf a) (← sideOf r)
+      pure (← identOf k, some sig)
     | .list [.atom "helper", .atom k] => do pure (← identOf k, none)
     | _ => none)
 
